@@ -87,6 +87,9 @@ def make_response(req, spec):
         accept = key.decode('ascii')
     elif acc == 'prefix_ok':
         accept = digest + 'x'
+    elif isinstance(acc, (list, tuple)) and acc[0] == 'wrap':
+        # the digest with something in front of / behind it
+        accept = acc[1] + digest + acc[2]
     elif isinstance(acc, (list, tuple)) and acc[0] == 'lit':
         accept = acc[1]
     else:
